@@ -363,3 +363,23 @@ def strip_tfdt(data: bytes) -> bytes:
     if not chk.well_formed() or any(x.name == 'tfdt' for x in chk.boxes()):
         raise ValueError('stripping tfdt produced a malformed file')
     return res
+
+
+def open_ended_last_box(data: bytes) -> bytes:
+    """The same bytes with the size field of the last top-level box set to 0 ("extends to the end of the file", ISO/IEC 14496-12
+    4.2): a muxer that streams its last mdat does not know the size when it writes the header."""
+    p = Parsed(data)
+    mdats = [b for b in p.top if b.name == 'mdat']
+    if not mdats:
+        raise ValueError('no mdat box')
+    last = mdats[-1]
+    # whatever follows the last fragment (an mfra random access table) is dropped: the open-ended box must be the last one
+    data = data[:last.pos + last.size]
+    p = Parsed(data)
+    if data[last.pos:last.pos + 4] == b'\x00\x00\x00\x01':
+        raise ValueError('the last mdat has a 64-bit size')
+    res = data[:last.pos] + b'\x00\x00\x00\x00' + data[last.pos + 4:]
+    q = Parsed(res)
+    if not q.well_formed() or [b.name for b in q.top] != [b.name for b in p.top]:
+        raise ValueError('the independent reader does not see the same layout')
+    return res
